@@ -302,6 +302,34 @@ def work(ctx, tier):
             if r is not None and rd is not None and r is not rd:
                 viol(f"optional-fallback-differs:{fn.__name__}", f"{lib} is not importable: {fn.__name__} must equal default_classifier ({rd.name}); got {r.name} for {case}", case)
 
+        # ------------------------------------------------------------ the error that happened to be in flight is not part of the table
+        if i % 3 == 0 and rd is not None and rs is not None and rh is not None:
+            carrier = type(rng.choice(["HTTPError", "UpstreamError", "AuthError"]), (Exception,), {})("in flight")
+            setattr(carrier, rng.choice(["status", "code"]), rng.choice(list(TABLE)))
+            how = rng.choice(["context", "cause", "context-suppressed"])
+            try:
+                e.__context__ = carrier
+                if how == "cause":
+                    e.__cause__ = carrier
+                elif how == "context-suppressed":
+                    e.__suppress_context__ = True  # what `raise X from None` inside an except block leaves behind
+            except Exception:  # noqa: BLE001 - exotic objects that refuse the attribute
+                carrier = None
+            if carrier is not None:
+                case2 = dict(case, raised_while_handling=f"{type(carrier).__name__}({ {k_: v_ for k_, v_ in vars(carrier).items()} })", chained_by=how)
+                ctx.cnt["raised_while_handling_another_error"] += 1
+                for fn, r0 in ((default_classifier, rd), (strict_classifier, rs), (http_classifier, rh), (sqlstate_classifier, rq)):
+                    r1 = total(fn, e, case2)
+                    if r1 is not None and r0 is not None and r1 is not r0:
+                        viol("class-depends-on-the-error-in-flight", f"{fn.__name__}: {type(e).__name__} alone -> {r0.name}; the same error raised while a {type(carrier).__name__} with {vars(carrier)} was being handled ({how}) -> {r1.name}", case2)
+                        break
+                try:
+                    e.__cause__ = None
+                    e.__context__ = None
+                    e.__suppress_context__ = False
+                except Exception:  # noqa: BLE001
+                    pass
+
     # ---------------------------------------------------------------- dedicated SQLSTATE forms
     for code, want in SQL.items():
         for j in range(40 if tier == "quick" else 400):
@@ -354,8 +382,23 @@ def work(ctx, tier):
 
 def classifier_threads(ctx, viol, tier, rng):
     """The classifiers are functions of their argument: two threads classifying different errors at once (pre-emption before every
-    source line of the library, controlled scheduler) each get the answer they get alone, and so does everyone asking afterwards."""
+    source line of the library, controlled scheduler) each get the answer they get alone, and so does everyone asking afterwards.
+    Before every schedule the classifier's module (and redress.classify behind it) is re-imported, so the race also covers whatever a
+    module builds lazily on its first use in a process."""
+    import importlib
+    import sys
+
     from .. import sched
+
+    MODS = {"default_classifier": "redress.classify", "strict_classifier": "redress.classify", "http_classifier": "redress.extras.http",
+            "sqlstate_classifier": "redress.extras.sqlstate", "pyodbc_classifier": "redress.extras.pyodbc"}
+
+    def fresh(fname):
+        importlib.reload(sys.modules["redress.classify"])
+        m = sys.modules[MODS[fname]]
+        if MODS[fname] != "redress.classify":
+            m = importlib.reload(m)
+        return getattr(sys.modules[MODS[fname]], fname)
 
     def sql_exc(code, form, j):
         typ = type(["Db", "Odbc", "Driver"][j % 3] + "Error", (Exception,), {})
@@ -376,28 +419,36 @@ def classifier_threads(ctx, viol, tier, rng):
     codes = sorted(SQL)
     pairs = []
     for j in range(6 if tier == "quick" else 60):
-        a, b = rng.sample(codes, 2)
+        a_, b_ = rng.sample(codes, 2)
         f = rng.choice([1, 1, 2])
-        pairs.append((sqlstate_classifier, sql_exc(a, f, j), sql_exc(b, f, j + 1)))
-        pairs.append((pyodbc_classifier, sql_exc(a, 1, j), sql_exc(b, 1, j + 1)))
-    for j in range(4 if tier == "quick" else 40):
+        pairs.append(("sqlstate_classifier", sql_exc(a_, f, j), sql_exc(b_, f, j + 1)))
+        pairs.append(("pyodbc_classifier", sql_exc(a_, 1, j), sql_exc(b_, 1, j + 1)))
+    for j in range(12 if tier == "quick" else 90):
         na, nb = rng.sample(["AuthError", "TimeoutThing", "ForbiddenError", "PlainError", "RateLimitExceeded", "ConflictError"], 2)
-        fn = rng.choice([default_classifier, strict_classifier, http_classifier])
-        pairs.append((fn, named(na, rng.choice([None, "status"]), rng.choice(list(TABLE))), named(nb, rng.choice([None, "code"]), rng.choice(list(TABLE)))))
+        fname = ["http_classifier", "default_classifier", "strict_classifier"][j % 3]
+        # documented statuses on both sides: an answer from a half-built table shows as UNKNOWN
+        sa, sb = rng.sample([s_ for s_ in TABLE if isinstance(s_, int)], 2)
+        pairs.append((fname, named(na, "status", sa), named(nb, rng.choice(["status", "code"]), sb)))
     limit = 40 if tier == "quick" else 400
-    for pi, (fn, ea, eb) in enumerate(pairs):
+    for pi, (fname, ea, eb) in enumerate(pairs):
         if pi % ctx.nshards != ctx.shard:
             continue
         try:
-            want = (fn(ea), fn(eb))
+            want = (fresh(fname)(ea), fresh(fname)(eb))
         except BaseException as x:  # noqa: BLE001
-            viol("classifier-raised:" + type(x).__name__, f"{fn.__name__} raised {x!r}", {"threads": fn.__name__})
+            viol("classifier-raised:" + type(x).__name__, f"{fname} raised {x!r}", {"threads": fname})
             continue
-        case = {"classifier": fn.__name__, "a": f"{type(ea).__name__}{ea.args!r}"[:90], "b": f"{type(eb).__name__}{eb.args!r}"[:90]}
-        progs = [[lambda o: fn(ea)], [lambda o: fn(eb)]]
+        case = {"classifier": fname, "a": f"{type(ea).__name__}{ea.args!r} {vars(ea)}"[:110], "b": f"{type(eb).__name__}{eb.args!r} {vars(eb)}"[:110]}
+        holder = {}
+
+        def make():
+            holder["fn"] = fresh(fname)
+            return holder["fn"]
+
+        progs = [[lambda f_: f_(ea)], [lambda f_: f_(eb)]]
         prefix, n = [], 0
         while True:
-            r = sched.run_schedule(lambda: object(), progs, prefix=prefix)
+            r = sched.run_schedule(make, progs, prefix=prefix)
             s_ = r["sched"]
             n += 1
             key = [x[1] for x in s_.trace]
@@ -409,10 +460,10 @@ def classifier_threads(ctx, viol, tier, rng):
             got = (r["results"][0][0] if r["results"][0] else None, r["results"][1][0] if r["results"][1] else None)
             later = None
             if not r["errors"]:
-                later = (fn(ea), fn(eb))
+                later = (holder["fn"](ea), holder["fn"](eb))
             if r["errors"] or got != want or later != want:
-                viol("classifier-answer-depends-on-another-thread", f"{fn.__name__}: alone -> {[w.name for w in want]}; two threads at once -> {[g and g.name for g in got]}, asked again afterwards -> {later and [g.name for g in later]}; "
-                     f"errors {r['errors']}; {case}; schedule {key}", dict(case, schedule=key))
+                viol("classifier-answer-depends-on-another-thread", f"{fname}: alone -> {[w.name for w in want]}; two threads at once (first use of the module in the process) -> {[g and g.name for g in got]}, "
+                     f"asked again afterwards -> {later and [g.name for g in later]}; errors {r['errors']}; {case}; schedule {key}", dict(case, schedule=key))
                 break
             nxt = sched.next_prefix(s_.trace, 2)
             if nxt is None or n >= limit:
@@ -435,6 +486,7 @@ def conclude(ctx):
         "sql:free text": (ctx.cnt["sql:free text"], 50),
         "systematic_table_cases": (ctx.cnt["systematic_table_cases"], 500),
         "falsy_status_defers_to_code": (ctx.cnt["falsy_status_defers_to_code"], 200),
+        "raised_while_handling_another_error": (ctx.cnt["raised_while_handling_another_error"], 500),
         "classifier_thread_schedules": (ctx.cnt["classifier_thread_schedules"], 200),
         "classifier_thread_line_events": (ctx.cnt["classifier_thread_line_events"], 1000),
     }
